@@ -615,7 +615,7 @@ pub fn run(ctx: &Ctx) {
         Case19::Doc { cfg: probes[i % probes.len()].clone(), mask: masks[(i / probes.len()) % masks.len()], style: (i / (probes.len() * masks.len())) as u8 }
     }, check);
     // generated
-    let per = ctx.tier.scale(4000, 20);
+    let per = ctx.tier.scale(30000, 10);
     ctx.search("round-trip", 16, per, &|| any_cfg_strategy().prop_map(Case19::RoundTrip), check);
     ctx.search("doc-generated", 16, per, &|| (any_cfg_strategy(), mask_strategy(), 0u8..16).prop_map(|(cfg, mask, style)| Case19::Doc { cfg, mask, style }), check);
 }
